@@ -22,7 +22,8 @@ PKG = "pkg/regserver/regprocessor"
 FILES = ["common/vcommon_test.go", "pkg_regprocessor/data_bridge_verif.go", "pkg_regprocessor/data_verif_test.go"]
 BROKEN = {"clone-early": "RespEqualsForwarded", "forward-forged": "ForgedFieldsDropped",
           "override-despite-disable": "OverridesOnlyIfAllowed", "exclude-after-subst": "ExcludedNeverReplaced",
-          "last-wins": "EveryNonZeroSubnetUsed", "rebuild-for-outdated": "RespEqualsForwarded"}
+          "last-wins": "EveryNonZeroSubnetUsed", "rebuild-for-outdated": "RespEqualsForwarded",
+          "noauth-drops-exclusions": "ExcludedNeverReplaced"}
 INVS = ["TypeOK", "RespEqualsForwarded", "StationAgrees", "ForgedFieldsDropped", "OverridesOnlyIfAllowed",
         "SubstituteFromConfiguredSubnets", "EveryNonZeroSubnetUsed", "ExcludedNeverReplaced", "FamiliesAnswered"]
 
